@@ -336,6 +336,19 @@ def oracle_grid(case, ctx):
             f(f'{o}: rotation modified its operand')
         if objs.canon_grid(objs.ori(o) * g) != got:
             f(f'{o}: left and right multiplication differ')
+    # a rotated grid is a value of its own: the owner of `view = grid * F` may rotate or overwrite the view (also with the augmented
+    # operator) without the source grid changing -- cell contents, row lengths, shape
+    for o in HEADINGS:
+        g = objs.build_grid(rows)
+        view = g * objs.ori('F')
+        view *= objs.ori(o)
+        if objs.canon_grid(view) != objs.canon_grid(objs.build_grid(rows) * objs.ori(o)):
+            f(f'view = grid * F; view *= {o}: the view is not grid * {o}')
+        if objs.canon_grid(g) != rows or (g.shape.height, g.shape.width) != (h, w) or [len(r) for r in g.objects] != [w] * h:
+            f(f'view = grid * F; view *= {o}: the source grid changed (now {objs.canon_grid(g)[:2]}..., shape {g.shape})')
+        for o2 in HEADINGS:
+            if objs.canon_grid(g * objs.ori(o2)) != objs.canon_grid(objs.build_grid(rows) * objs.ori(o2)):
+                f(f'after view = grid * F; view *= {o}: grid * {o2} differs from the rotation of an equal fresh grid')
     g = objs.build_grid(rows)
     first = {o: objs.canon_grid(g * objs.ori(o)) for o in ['B', 'L', 'F', 'R']}
     second = {o: objs.canon_grid(g * objs.ori(o)) for o in ['R', 'B', 'L', 'F']}
